@@ -449,8 +449,10 @@ class Check:
             # process-level outcomes
             crashed = j.rc is not None and j.rc < 0
             asserted = re.search(r"Assertion (.*?) failed \(located in the (\S+) function, line in file: (\d+)\)", j.stderr_tail)
+            cm = re.search(r"\[vrt-crash-context\] (\S+)", j.stderr_tail)
+            cctx = ("@" + cm.group(1)) if cm else ""
             if asserted:
-                self.add_violation("assert.%s" % asserted.group(2), "oneTBB internal assertion: " + asserted.group(0)[:300] + " | " + j.stderr_tail[-600:], scen_args)
+                self.add_violation("assert.%s%s" % (asserted.group(2), cctx), "oneTBB internal assertion: " + asserted.group(0)[:300] + " | " + j.stderr_tail[-600:], scen_args)
             for kind, key, text, files in j.san_reports:
                 if kind == "lsan:leak" and not leak_is_violation:
                     continue
@@ -471,7 +473,7 @@ class Check:
                 for i, a in enumerate(j.args):
                     if a == "--mode" and i + 1 < len(j.args):
                         mode = j.args[i + 1]
-                self.add_violation("crash.%s.%s" % (mode or "default", signame), "process died on %s; stderr tail: %s" % (signame, j.stderr_tail[-1500:]), scen_args)
+                self.add_violation("crash.%s.%s%s" % (mode or "default", signame, cctx), "process died on %s; stderr tail: %s" % (signame, j.stderr_tail[-1500:]), scen_args)
             elif r is None and not crashed and not asserted and not j.san_reports:
                 self.harness_failures.append("%s: no result file (rc=%s) stderr: %s" % (j.tag, j.rc, j.stderr_tail[-600:]))
             elif r is not None and j.rc not in (0, None) and not crashed and not j.san_reports and not asserted and not r.get("violations_total"):
